@@ -1,0 +1,19 @@
+//! Verification hooks (compiled only with `--cfg quinn_rs_quinn_verif`).
+//!
+//! Interprets integer-encoded operation sequences against the real control-message and
+//! segmentation logic and returns integer-encoded observations.
+#![allow(missing_docs, dead_code, unused_imports, unreachable_pub, clippy::all)]
+
+/// One operation = opcode followed by integer arguments.
+pub type Ops = [Vec<i128>];
+/// One observation per operation.
+pub type Outs = Vec<Vec<i128>>;
+
+/// Constants for `coq/gen/Constants.v`.
+pub fn constants() -> Vec<(&'static str, i128)> {
+    vec![]
+}
+
+pub fn run(_comp: &str, _ops: &Ops) -> Option<Outs> {
+    None
+}
